@@ -90,6 +90,11 @@ def to_formula(c, positive):
     t = c[0]
     if t == "cmp":
         return rat_to_lin(c[1] - c[3], c[2], positive)
+    if t == "opaque":
+        # an uninterpreted boolean: a 0/1 variable
+        return ("lin", Lin({"?" + str(c[1]): 1}, -1, "=="))
+    if t == "not" and not isinstance(c[1], bool) and c[1][0] == "opaque":
+        return ("lin", Lin({"?" + str(c[1][1]): 1}, 0, "=="))
     if t == "not":
         return f_not(to_formula(c[1], positive))
     if t == "and":
